@@ -236,30 +236,36 @@ func (c08Checker) recheck(r *Replay, res []*Result) Verdict {
 	if len(res) != 2 {
 		return Verdict{Infra: "C08 replay needs two runs"}
 	}
-	var evs [2]*job.Event
 	for i, x := range res {
 		if x.Trace == nil || len(x.Trace.Events) == 0 {
 			return Verdict{Infra: fmt.Sprintf("run %d produced no trace (exit %d): %s", i, x.Exit, tail(x.Stderr, 400))}
 		}
-		evs[i] = &x.Trace.Events[0]
 	}
-	a, b := evs[0], evs[1]
-	dg := []string{evDigest(a), evDigest(b)}
-	if a.Panic != nil || b.Panic != nil {
-		// a crash is C12's business; for C08 it only counts if the two runs disagree
-		if (a.Panic != nil) != (b.Panic != nil) {
-			return Verdict{Violated: true, Desc: "one schedule/layout panics, the other does not", Digests: dg}
+	ea, eb := res[0].Trace.Events, res[1].Trace.Events
+	if len(ea) != len(eb) {
+		return Verdict{Violated: true, Desc: "the two executions completed a different number of commands", Digests: []string{fmt.Sprint(len(ea)), fmt.Sprint(len(eb))}}
+	}
+	steps := r.Runs[0].Job.Steps
+	for k := range ea {
+		a, b := &ea[k], &eb[k]
+		dg := []string{fmt.Sprintf("%d:%s", k, evDigest(a)), fmt.Sprintf("%d:%s", k, evDigest(b))}
+		cmd := stepDesc(&steps[a.Step])
+		if a.Panic != nil || b.Panic != nil {
+			// a crash is C12's business; for C08 it only counts if the two runs disagree
+			if (a.Panic != nil) != (b.Panic != nil) {
+				return Verdict{Violated: true, Desc: cmd + ": one schedule/layout panics, the other does not", Digests: dg}
+			}
+			continue
 		}
-		return Verdict{Desc: "both runs panic", Digests: dg}
+		if a.OK != b.OK {
+			return Verdict{Violated: true, Desc: fmt.Sprintf("%s: success status differs: %t (%s) vs %t (%s)", cmd, a.OK, a.Err, b.OK, b.Err), Digests: dg}
+		}
+		if a.OutSha != b.OutSha {
+			n, x, y := firstDiffLine(a.Out, b.Out)
+			return Verdict{Violated: true, Desc: fmt.Sprintf("%s: output differs at line %d: %q vs %q", cmd, n, x, y), Digests: dg}
+		}
 	}
-	if a.OK != b.OK {
-		return Verdict{Violated: true, Desc: fmt.Sprintf("success status differs: %t (%s) vs %t (%s)", a.OK, a.Err, b.OK, b.Err), Digests: dg}
-	}
-	if a.OutSha != b.OutSha {
-		n, x, y := firstDiffLine(a.Out, b.Out)
-		return Verdict{Violated: true, Desc: fmt.Sprintf("output differs at line %d: %q vs %q", n, x, y), Digests: dg}
-	}
-	return Verdict{Desc: "outputs identical", Digests: dg}
+	return Verdict{Desc: "outputs identical", Digests: []string{"same"}}
 }
 
 func tail(s string, n int) string {
@@ -655,12 +661,17 @@ func c08Minimise(mm *c08Mismatch, seed uint64) *Replay {
 	for i := range all {
 		all[i] = i
 	}
-	if !test(all) {
-		return nil
-	}
-	keep := ddmin(n1+n2, test)
-	if !test(keep) || lastGood == nil {
-		return nil
+	keep := all
+	if test(all) {
+		keep = ddmin(n1+n2, test)
+		if !test(keep) || lastGood == nil {
+			return nil
+		}
+	} else {
+		// the single command does not show it under any tried schedule: keep the two original
+		// executions (all commands) as the witness; they replay exactly
+		full := c08Steps(c)
+		lastGood = &cand{c.run(mm.base, full, true), c.run(mm.v, full, true)}
 	}
 	rep := &Replay{Property: "C08", Clause: "same resources, different output", Seed: seed, Scenario: c.name,
 		Runs: []Run{lastGood.a, lastGood.b}, Detail: map[string]string{"command": stepDesc(&mm.step), "variation": mm.v.kind, "documents_kept": fmt.Sprint(len(keep))}}
@@ -668,7 +679,7 @@ func c08Minimise(mm *c08Mismatch, seed uint64) *Replay {
 	if v.Infra != "" || !v.Violated {
 		return nil
 	}
-	rep.Note = fmt.Sprintf("%s [%s]: %s", stepDesc(&mm.step), mm.v.kind, v.Desc)
+	rep.Note = fmt.Sprintf("[%s] %s", mm.v.kind, v.Desc)
 	rep.Observed = v.Digests
 	rep.Sig = "c08:" + shortHash(stepKindSig(&mm.step)+"|"+normaliseDesc(v.Desc))
 	return rep
